@@ -3,12 +3,10 @@ import Wayfind.Proofs.Registry10
 /-! insert followed by delete is the identity (C10) -/
 
 theorem insert_delete_roundtrip (env : Env) {r r' : Router} {L : List LiveT} (h : Live r L) {t : Bytes} {d : Nat}
-    (hi : r.insert t d = .ok r') (ts : List (Bytes × List Part)) (hp : parseTemplates t = .ok ts) (hd : DistinctExps ts) :
+    (hi : r.insert t d = .ok r') (ts : List (Bytes × List Part)) (hp : parseTemplates t = .ok ts) :
     (r'.delete t).1 = .ok d ∧ ∀ path, (r'.delete t).2.search env path = r.search env path := by
-  have hdist : (Call.insert t d).distinct := by
-    intro ts' hp'; rw [hp] at hp'; injection hp' with hp'; subst hp'; exact hd
   have hlive' : Live r' (L ++ [⟨t, d, ts⟩]) := by
-    have := h.step (.insert t d) hdist
+    have := h.step (.insert t d)
     simpa [Router.step, liveAfter, hi, hp] using this
   obtain ⟨h1, hlive''⟩ := delete_live_api hlive' ⟨t, d, ts⟩ (by simp)
   refine ⟨h1, ?_⟩
@@ -17,7 +15,7 @@ theorem insert_delete_roundtrip (env : Env) {r r' : Router} {L : List LiveT} (h 
   have hreg' := hlive'.rinv.reg
   obtain ⟨ts', hp', _, hc, hr'⟩ := (Router.insert_ok_iff r r' t d).1 hi
   rw [hp] at hp'; injection hp' with hp'; subst hp'
-  obtain ⟨hSi, hfi⟩ := insertOk_find (d := d) hreg.shp hp hd hc
+  obtain ⟨hSi, hfi⟩ := insertOk_find (d := d) hreg.shp hp hc
   have hdeq := delete_live_eq hreg' ⟨t, d, ts⟩ (by simp)
   simp only at hdeq
   obtain ⟨hSd, hfd⟩ := deleteOk_find (r := r') (t := t) (ts := ts) hreg'.shp hp
